@@ -33,8 +33,14 @@ def arg_roles(body, a):
     return params, lits | items, way
 
 
-def E(callee, const=None, params=(), lits=(), way=(), loop=False, flag=None):
-    return {"callee": callee, "const": const, "params": set(params), "lits": set(lits), "way": set(way), "loop": loop, "flag": flag}
+ITER_OPS = {"into_iter", "iter", "next", "new", "push", "split_first", "as_ref", "as_slice", "deref", "as_str", "get_all", "unwrap", "unwrap_or_default", "len",
+            "with_capacity", "as_bytes", "get_unique", "and_then", "is_some", "is_empty", "not"}
+
+
+def E(callee, const=None, params=(), lits=(), way=(), loop=False, flag=None, only=None):
+    """only: if given, the operand may pass through no call other than `way`, `only` and plain iteration/container operations"""
+    return {"callee": callee, "const": const, "params": set(params), "lits": set(lits), "way": set(way), "loop": loop, "flag": flag,
+            "only": None if only is None else set(only)}
 
 
 def match_event(body, ev, exp):
@@ -66,6 +72,10 @@ def match_event(body, ev, exp):
             return "operand's slice has literals %s, expected %s" % (sorted(lits), sorted(exp["lits"]))
         if not exp["way"] <= way:
             return "operand does not pass through %s (passes %s)" % (sorted(exp["way"] - way), sorted(way))
+        if exp.get("only") is not None:
+            extra = way - exp["way"] - exp["only"] - ITER_OPS
+            if extra:
+                return "operand is transformed by %s on its way into the signed string (the specification signs it as is)" % sorted(extra)
     return None
 
 
@@ -112,14 +122,14 @@ def check_layout(chk, db, rule, fn, expected, alt_tail=()):
 NL = "\n"
 
 CANONICAL_COMMON = [
-    E("push_str", params={"method"}, way={"as_str"}), E("push", NL),
-    E("uri_encode", params={"uri_path"}, flag=0), E("push", NL),
+    E("push_str", params={"method"}, way={"as_str"}, only=()), E("push", NL),
+    E("uri_encode", params={"uri_path"}, flag=0, only=()), E("push", NL),
     E("push_str", params={"decoded_query_strings"}, way={"uri_encode_string", "stable_sort_by_first"}), E("push", "="),
     E("push_str", params={"decoded_query_strings"}, way={"uri_encode_string", "stable_sort_by_first"}),
     E("push", "&", loop=True), E("push_str", params={"decoded_query_strings"}, way={"uri_encode_string", "stable_sort_by_first"}, loop=True),
     E("push", "=", loop=True), E("push_str", params={"decoded_query_strings"}, way={"uri_encode_string", "stable_sort_by_first"}, loop=True),
     E("push", NL),
-    E("push_str", params={"signed_headers"}, loop=True), E("push", ":", loop=True), E("push_str", params={"signed_headers"}, way={"trim"}, loop=True), E("push", NL, loop=True),
+    E("push_str", params={"signed_headers"}, loop=True, only=()), E("push", ":", loop=True), E("push_str", params={"signed_headers"}, way={"trim"}, loop=True, only=()), E("push", NL, loop=True),
     E("push", NL),
     E("push", ";", loop=True), E("push_str", params={"signed_headers"}, loop=True),
     E("push", NL),
@@ -276,7 +286,7 @@ def rule_r6_v2(chk, db):
     exp_tail = [
         E("push_str", params={"headers"}, loop=True), E("push", ":", loop=True), E("push_str", params={"headers"}, way={"trim"}, loop=True),
         E("push", ",", loop=True), E("push_str", params={"headers"}, way={"trim"}, loop=True), E("push", NL, loop=True),
-        E("push", "/"), E("push_str", params={"virtual_host_bucket"}), E("push_str", params={"uri_path"}),
+        E("push", "/"), E("push_str", params={"virtual_host_bucket"}, only=()), E("push_str", params={"uri_path"}, only=()),
         E("push", "?", loop=True), E("push", "&", loop=True), E("push_str", lits={"INCLUDED_QUERY"}, loop=True), E("push", "=", loop=True),
         E("push_str", params={"qs"}, loop=True),
     ]
